@@ -56,6 +56,12 @@ class C11(WigBedProp):
                             for j, n in enumerate(names)}
                     body = bbgen.wig_lines(names, sizes, data)
                 tags.add("chromosomes_spill_bufwriter")
+                if g % 6 == 4:
+                    # the destination is one whose write() takes part of a large buffer (it is the same for every configuration of
+                    # the group), with sections larger than a BufWriter load: what reaches it directly and what reaches it
+                    # through a staging buffer depends on the timing of the hand-over — the bytes must not
+                    fmt.update({"compress": 0, "ips": 1024, "destmax": r.choice([1000, 4096])})
+                    tags.add("destination_accepts_short_writes")
             configs = [{"threads": 1, "rt": "ct", "chan": 0, "inmem": 0, "src": "iter", "delay": 0}]
             lattice = []
             for th in ([1, 2, 3, 4, 8, 16] if tier == "thorough" else [1, 2, 4, 16]):
@@ -78,7 +84,7 @@ class C11(WigBedProp):
                 o.update(cfg)
                 o["sort"] = "all"
                 o["keep"] = 0
-                t = {"bed" if bed else "wig", f"src={cfg['src']}", *([x for x in tags if x == "chromosomes_spill_bufwriter"]), f"rt={cfg['rt']}", f"chan={cfg['chan']}", f"inmem={cfg['inmem']}",
+                t = {"bed" if bed else "wig", f"src={cfg['src']}", *([x for x in tags if x in ("chromosomes_spill_bufwriter", "destination_accepts_short_writes")]), f"rt={cfg['rt']}", f"chan={cfg['chan']}", f"inmem={cfg['inmem']}",
                      f"threads={cfg['threads']}", f"pass={fmt['pass']}"}
                 if cfg["threads"] >= 2 and cfg["delay"] and len(names) >= 2:
                     t.add("nt")
